@@ -219,7 +219,7 @@ pub fn recognizers(def: &Def) -> Result<&'static [Rec; MAXT], String> {
             match k.as_str() {
                 "str" => Rec::Str(Box::leak(s.clone().into_boxed_str())),
                 "re" => Rec::Re(
-                    rustemo::regex::Regex::new(&format!("^{s}"))
+                    rustemo::regex::Regex::new(&format!("^(?:{s})"))
                         .map_err(|e| format!("regex: {e}"))?,
                 ),
                 _ => Rec::Never,
